@@ -149,6 +149,11 @@ class SourceMapping:
         self.line = line_number
         self.column = column
 
+    def __eq__(self, other: object) -> bool:
+        if not isinstance(other, SourceMapping) or isinstance(other, MacroSourceMapping):
+            return False
+        return self.line == other.line and self.column == other.column
+
     def serialize(self) -> list[Any]:
         return [self.line, self.column]
 
@@ -193,6 +198,19 @@ class MacroSourceMapping(SourceMapping):
         # purposes. Contains the string representation or integer value
         self.parameter_mapping = parameter_mapping
 
+    def __eq__(self, other: object) -> bool:
+        if not isinstance(other, MacroSourceMapping):
+            return False
+        return (
+            self.relpath_included_file == other.relpath_included_file
+            and self.macro_name == other.macro_name
+            and self.line == other.line
+            and self.column == other.column
+            and self.called_in == other.called_in
+            and self.return_addr == other.return_addr
+            and self.parameter_mapping == other.parameter_mapping
+        )
+
     def serialize(self) -> list[Any]:
         return [
             self.relpath_included_file,
@@ -206,8 +224,12 @@ class MacroSourceMapping(SourceMapping):
 
     @classmethod
     def deserialize(cls, data_list: list[Any]) -> MacroSourceMapping:
+        called_in = data_list[4]
+        if called_in is not None:
+            # JSON has no tuples
+            called_in = (called_in[0], called_in[1], called_in[2])
         return MacroSourceMapping(
-            data_list[0], data_list[1], data_list[2], data_list[3], data_list[4], data_list[5], data_list[6]
+            data_list[0], data_list[1], data_list[2], data_list[3], called_in, data_list[5], data_list[6]
         )
 
 
@@ -298,7 +320,12 @@ class SourceMap:
     def __eq__(self, other: object) -> bool:
         if not isinstance(other, SourceMap):
             return False
-        return self._mappings == other._mappings and self._position_marks == other._position_marks
+        return (
+            self._mappings == other._mappings
+            and self._position_marks == other._position_marks
+            and self._mappings_macros == other._mappings_macros
+            and [tuple(m) for m in self._position_marks_macro] == [tuple(m) for m in other._position_marks_macro]
+        )
 
     def __str__(self) -> str:
         return self.serialize()
